@@ -547,6 +547,7 @@ fn c17_clear(run: &Run, cfg: &Cfg, hist_alpha: &[Op], hd: usize, cont_alpha: &[O
       let mut word = h.clone();
       word.push(Op::Clear);
       word.extend(c.iter().cloned());
+      crate::crashguard::set_case(crate::crashguard::head_of(&json!({"engine": "hist", "tag": "C17", "cfg": cfg, "start": st, "word": word, "oracles": O_REWIND, "sync": true, "unsync": true, "diff": false})));
       let out = pair.run_word(&st, &word, &spec, 0);
       run.eval(1);
       run.trans(out.executed as u64);
